@@ -80,7 +80,7 @@ def monitorLine (obs : String) : String :=
   let okish := st == "ok" || st == "warn" || st.toNat?.isSome
   if bad && okish then "VIOLATED write-fault-not-reported: " ++ obs else obs
 
-def stepLine (d : DState) (op obs : String) : DState × String :=
+def stepLine0 (d : DState) (op obs : String) : DState × String :=
   let ws := LA.words op
   -- structural ops first (also in monitor mode)
   match ws with
@@ -111,6 +111,7 @@ def stepLine (d : DState) (op obs : String) : DState × String :=
     if f == "b64" then ({ d with h := some { h with enc := some { kind := .b64 } } }, "filter ok")
     else if f == "uu" then ({ d with h := some { h with enc := some { kind := .uu } } }, "filter ok")
     else ({ d with monitor := true }, obs)
+  | ["opt", _] => if d.monitor then (d, obs) else (d, "bad-op")
   | ["opener", v] =>
     match v.toInt? with
     | some r => ({ d with h := some { h with openerRet := r } }, "ok")
@@ -176,6 +177,12 @@ def stepLine (d : DState) (op obs : String) : DState × String :=
     let r := finish d "free" (apiFree driverWriter d.w h)
     ({ r.1 with freed := true }, r.2)
   | _ => (d, "bad-op")
+
+/-- Engine `det` merges two runs of the implementation under different heap/stack poison; a
+line on which they differ arrives as `NONDET …` and is a violation of C11 whatever the model says. -/
+def stepLine (d : DState) (op obs : String) : DState × String :=
+  let r := stepLine0 d op obs
+  if obs.startsWith "NONDET" then (r.1, "VIOLATED output-depends-on-heap-or-stack-contents: " ++ obs) else r
 
 def engine : LA.Engine := { σ := DState, init := {}, step := stepLine }
 
